@@ -188,7 +188,7 @@ func TestC10(t *testing.T) {
 				root, acct := fttypes.MerklePath("s"), hexsha(a.Bech)
 				tn := "tn-auto"
 				ed, vw := aclJSON(map[string]string{ftEditorID(tn, a.Bech): "k"}), aclJSON(map[string]string{ftViewerID(tn, a.Bech): "k"})
-				if r := w.f.Exec(fttypes.NewMsgProvisionFileTree(a.Bech, ed, vw, tn)); r.OK() {
+				if r := w.f.Exec(newMsgProvisionFileTree(a.Bech, ed, vw, tn)); r.OK() {
 					w.model[ftKey(root, ftOwnerAddr(root, acct))] = &ftEntry{Address: root, Owner: ftOwnerAddr(root, acct), Account: acct, Contents: "", Viewers: vw, Editors: ed, Tracking: tn}
 					w.logf("provision root by %s (the tree was empty)", short(a.Bech))
 				}
@@ -291,7 +291,7 @@ func TestC10(t *testing.T) {
 				ed, vw := genACL(rt, "e", tn, a), genACL(rt, "v", tn, a)
 				root := fttypes.MerklePath("s")
 				acct := hexsha(a.Bech)
-				msg := fttypes.NewMsgProvisionFileTree(a.Bech, ed, vw, tn)
+				msg := newMsgProvisionFileTree(a.Bech, ed, vw, tn)
 				fail(w.apply(fmt.Sprintf("provision root by %s", short(a.Bech)), msg, mayDo, false, func() {
 					w.model[ftKey(root, ftOwnerAddr(root, acct))] = &ftEntry{Address: root, Owner: ftOwnerAddr(root, acct), Account: acct, Contents: "", Viewers: vw, Editors: ed, Tracking: tn}
 				}))
